@@ -132,6 +132,8 @@ def run_property(prop, tier="quick", root="/repo/verde", overlay=None, write=Tru
             _common.dead_parameters(ctx)
             _common.permutation_gather(ctx)
             _common.shared_contracts(ctx)
+            _common.library_keywords(ctx)
+            _common.accumulate_uninitialised(ctx)
     except UndecidedFunction as e:
         err = "ANALYSIS-UNDECIDED property=%s unsupported construct in %s" % (prop, e)
     except AnalysisError as e:
